@@ -32,6 +32,9 @@ type C14Case struct {
 	ErrKind string     `json:"err_kind,omitempty"`
 	Rounds  [][]C14RPC `json:"rounds"` // each round: RPCs in flight together, then quiesce
 	Ser     bool       `json:"ser"`
+	// Via: how the client connection reaches the server: "" = directly, "proxy" = through a goat.Proxy (and the Demux
+	// behind it), "demux" = as one logical connection of a goat.Demux keyed by the envelopes' source
+	Via string `json:"via,omitempty"`
 }
 
 var c14Outcomes = []string{"ok", "ok", "herr", "cancel", "cancel-unread", "cancel-send", "deadline", "reset", "openfail", "pre-cancelled", "pre-expired", "nearly-expired"}
@@ -42,10 +45,16 @@ var c14ParkMarker = []byte{0xEE, 0x14, 0xEE}
 func genC14(t *rapid.T) C14Case {
 	c := C14Case{Ser: rapid.Bool().Draw(t, "ser"), Stats: rapid.IntRange(0, 3).Draw(t, "stats") == 0}
 	c.ErrKind = rapid.SampledFrom(kit.FaultErrKinds).Draw(t, "err_kind")
+	c.Via = rapid.SampledFrom([]string{"", "", "proxy", "demux"}).Draw(t, "via")
 	nr := rapid.IntRange(1, 6).Draw(t, "rounds")
 	for r := 0; r < nr; r++ {
 		n := rapid.SampledFrom([]int{1, 4, 8, 16, 32}).Draw(t, "batchclass")
 		n = rapid.IntRange(1, n).Draw(t, "batch")
+		if c.Via == "proxy" && n > 2 {
+			// the proxy drops envelopes once more than 16 are queued for one destination (known finding, C16): through it
+			// at most two RPCs (<= 10 envelopes each way) are in flight together
+			n = 2
+		}
 		var round []C14RPC
 		for i := 0; i < n; i++ {
 			x := C14RPC{Kind: rapid.SampledFrom(allKinds).Draw(t, "kind"), Outcome: rapid.SampledFrom(c14Outcomes).Draw(t, "outcome"), Msgs: rapid.IntRange(0, 3).Draw(t, "msgs")}
@@ -164,7 +173,11 @@ func execC14(t *testing.T, c C14Case) (v Verdict) {
 				return inner(s)
 			})
 		}
-		w := kit.NewWorld(kit.Topo{Kind: "direct", Serialize: c.Ser, Clients: 1, Stats: c.Stats}, svc, nil, nil)
+		topo := "direct"
+		if c.Via != "" {
+			topo = c.Via
+		}
+		w := kit.NewWorld(kit.Topo{Kind: topo, Serialize: c.Ser, Clients: 1, Stats: c.Stats}, svc, nil, nil)
 		w.Links[0].Tap = nil
 		l := w.Links[0]
 		cc := w.CC[0]
@@ -319,6 +332,11 @@ func execC14(t *testing.T, c C14Case) (v Verdict) {
 		labels = append(labels, "outcome="+o)
 	}
 	sort.Strings(labels)
+	via := c.Via
+	if via == "" {
+		via = "direct"
+	}
+	labels = append(labels, "via="+via)
 	v.Info = kit.CaseInfo{Labels: labels, NonTrivial: len(outcomes) >= 3 && bigRound, Key: fmt.Sprintf("%+v", c), Sample: map[string]any{"rounds": len(c.Rounds), "rpcs": total, "first_round": headRPCs(c.Rounds[0])}}
 	v.Detail = failDetail
 	return
